@@ -25,11 +25,13 @@ type LRUOp struct {
 }
 
 type C12Case struct {
-	Capacity    int     `json:"capacity"`
-	TTL         int64   `json:"ttl_ns"`
-	Ops         []LRUOp `json:"ops"`
-	SearchCache bool    `json:"via_search_cache"`
-	FillDefault bool    `json:"fill_default"` // non-positive capacity: first fill past the default
+	// Sched: schedule vector for goroutines / channels / select choices of the code under test (single-task case body = first task)
+	Sched       []uint16 `json:"sched,omitempty"`
+	Capacity    int      `json:"capacity"`
+	TTL         int64    `json:"ttl_ns"`
+	Ops         []LRUOp  `json:"ops"`
+	SearchCache bool     `json:"via_search_cache"`
+	FillDefault bool     `json:"fill_default"` // non-positive capacity: first fill past the default
 }
 
 // ---- reference model (from the statement) ----
@@ -205,10 +207,17 @@ func genC12(rt *rapid.T) C12Case {
 			c.Ops[i].Val = i + 1 // unique values: every read is attributable to one write
 		}
 	}
+	if rapid.IntRange(0, 3).Draw(rt, "hassched") == 0 {
+		c.Sched = genSchedule(rt, 40)
+	}
 	return c
 }
 
 func runC12(c C12Case) *Outcome {
+	return scheduledOutcome(c.Sched, func() *Outcome { return runC12Body(c) })
+}
+
+func runC12Body(c C12Case) *Outcome {
 	o := &Outcome{Probes: map[string]int{}}
 	simrt.SetOrderCanonical()
 	simtime.Install(simtime.Epoch)
